@@ -1,11 +1,11 @@
 #!/bin/bash
-# tools/queue_seeded.sh <wt-name>:<seed-id> ...   sequentially: confirm (if not yet confirmed) + store; log to /tmp/queue_seeded.log
+# tools/queue_seeded.sh <wt-name>:<seed-id> ...   sequentially: confirm (if not yet confirmed) + store; log to /var/tmp/queue_seeded.log
 cd /verif
 for item in "$@"; do
   wt=${item%%:*}; sid=${item##*:}
   if ! grep -q "== done" /tmp/wt-$wt/seeded_out/confirm.log 2>/dev/null; then
-    bash tools/confirm_seeded.sh /tmp/wt-$wt > /tmp/confirm_$wt.out 2>&1
+    bash tools/confirm_seeded.sh /tmp/wt-$wt > /var/tmp/confirm_$wt.out 2>&1
   fi
-  echo "### $sid $(python3 tools/store_seeded.py $sid /tmp/wt-$wt 2>&1 | tail -1)" >> /tmp/queue_seeded.log
+  echo "### $sid $(python3 tools/store_seeded.py $sid /tmp/wt-$wt 2>&1 | tail -1)" >> /var/tmp/queue_seeded.log
 done
-echo "### QUEUE DONE" >> /tmp/queue_seeded.log
+echo "### QUEUE DONE" >> /var/tmp/queue_seeded.log
